@@ -3,6 +3,7 @@ package transform
 import (
 	"fmt"
 	"math"
+	"sort"
 	"strconv"
 	"strings"
 )
@@ -97,6 +98,16 @@ func VerifC10StrModel() {
 		vTraceFloat("t", t)
 		vTraceFloat("r", r)
 		vTraceFloat("lo", lo)
+	case 6: // sort.Ints (compare-exchange network) and sort.Strings on literals
+		xs := []int{int(vNondetInt64("a")), int(vNondetInt64("b")), int(vNondetInt64("c"))}
+		vAssume(-1000 <= xs[0] && xs[0] <= 1000 && -1000 <= xs[1] && xs[1] <= 1000 && -1000 <= xs[2] && xs[2] <= 1000)
+		sum, a0, b0, c0 := xs[0]+xs[1]+xs[2], xs[0], xs[1], xs[2]
+		sort.Ints(xs)
+		vAssert(xs[0] <= xs[1] && xs[1] <= xs[2] && xs[0]+xs[1]+xs[2] == sum, "sorted, same sum")
+		vAssert((xs[0] == a0 || xs[0] == b0 || xs[0] == c0) && (xs[2] == a0 || xs[2] == b0 || xs[2] == c0) && xs[0] <= a0 && xs[0] <= b0 && xs[0] <= c0 && xs[2] >= a0 && xs[2] >= b0 && xs[2] >= c0, "minimum first, maximum last")
+		ss := []string{"10/2", "9/30", "10/10"}
+		sort.Strings(ss)
+		vAssert(ss[0] == "10/10" && ss[1] == "10/2" && ss[2] == "9/30", "literal strings sort lexicographically")
 	}
 	vReach("end")
 }
